@@ -267,6 +267,15 @@ def _corpus_families(big):
                 des = [0, 1, 2, 3] if any(2 in cr for cr in crossings) else [0, 1, 3]
                 out.append({"factors": [c, t, m3, tr], "block": {"k": "multicross", "design": des, "crossings": crossings,
                             "cs": [], "rcc": True, "mode": mode, "align": align}})
+    # POST_PREAMBLE, crossings with different preambles in both orders, and a constraint scoped to the block's window
+    # (which starts at trial 0 and includes the unified preamble)
+    out.mark()
+    for crossings in ([[1], [0, 3]], [[0, 3], [1]]):
+        for ct in ({"k": "AtMostKInARow", "n": 1, "f": 1, "l": 0}, {"k": "Pin", "idx": 0, "f": 1, "l": 0},
+                   {"k": "ExactlyK", "n": 2, "f": 1, "l": 1}, {"k": "Pin", "idx": -1, "f": 0, "l": 0}):
+            out.append({"factors": [c, t, m3, tr], "block": {"k": "multicross", "design": [0, 1, 3], "crossings": crossings,
+                        "cs": [ct], "rcc": True, "mode": "repeat", "align": "post preamble"}})
+    out.mark()
     # mode / alignment given by their documented string spellings, crossings of different size
     sa, sb4 = _sf(0, ["a1", "a2"]), _sf(1, ["b1", "b2", "b3", "b4"])
     for mode in ("repeat", "weight"):
@@ -324,6 +333,13 @@ def _corpus_families(big):
         out.append({"factors": [col, size3, tr0], "block": {"k": "cross", "design": [0, 1, 3], "crossing": [3], "rcc": False,
                     "cs": [{"k": "Exclude", "f": fid, "l": lvl}]}})
     out.append({"factors": [col, size3, tr0], "block": {"k": "cross", "design": [0, 1, 3], "crossing": [0, 3], "rcc": False,
+                "cs": [{"k": "Exclude", "f": 1, "l": 1}]}})
+    # ... with the factor that loses a level listed *first* in the design, so that further preamble choices are
+    # numbered after it; and a two-trial preamble (window of width 3)
+    for lvl in (2, 0):
+        out.append({"factors": [col, size3, tr0], "block": {"k": "cross", "design": [1, 0, 3], "crossing": [0, 3], "rcc": True,
+                    "cs": [{"k": "Exclude", "f": 1, "l": lvl}]}})
+    out.append({"factors": [col, size3, tr0], "block": {"k": "cross", "design": [1, 0, 3], "crossing": [3], "rcc": True,
                 "cs": [{"k": "Exclude", "f": 1, "l": 1}]}})
     out.mark()
     # windows with an explicit start (earlier and later than the automatic one), also over a weighted uncrossed factor
@@ -419,6 +435,27 @@ def _corpus_families(big):
                         "cs": [{"k": "Sequential", "f": 0}] + extra}})
     out.append({"factors": [s3, s2], "block": {"k": "repeat", "cs": [{"k": "MinimumTrials", "n": 6}],
                 "b": {"k": "cross", "design": [0, 1], "crossing": [0], "rcc": True, "cs": [{"k": "Sequential", "f": 0}]}}})
+    # Sequential on a weighted factor outside the crossing (it cycles through the level *copies*: big, big, small)
+    wsz = _sf(1, ["big", "small"], [2, 1])
+    c2s = _sf(0, ["r", "g"])
+    for first, extra in ((s3, []), (s3, [{"k": "MinimumTrials", "n": 5}]), (c2s, [{"k": "MinimumTrials", "n": 4}]),
+                         (c2s, [{"k": "MinimumTrials", "n": 6}])):
+        out.append({"factors": [first, wsz], "block": {"k": "cross", "design": [0, 1], "crossing": [0], "rcc": True,
+                    "cs": [{"k": "Sequential", "f": 1}] + extra}})
+    out.append({"factors": [c2s, wsz], "block": {"k": "repeat", "cs": [{"k": "Sequential", "f": 1}, {"k": "MinimumTrials", "n": 4}],
+                "b": {"k": "cross", "design": [0, 1], "crossing": [0], "rcc": True, "cs": []}}})
+    # Sequential on the crossed factor of the outer block of a Nest (each of its trials is sustained over the inner
+    # block): 3 and 4 levels against inner lengths 2 and 3, constraint on the outer block or on a Merge around the Nest
+    s4 = _sf(0, ["c1", "c2", "c3", "c4"])
+    i3 = _sf(1, ["x", "y", "z"])
+    for outer_f, inner_f in ((s3, s2), (s4, i3), (s3, i3)):
+        inner = {"k": "cross", "design": [1], "crossing": [1], "rcc": True, "cs": []}
+        out.append({"factors": [outer_f, inner_f], "block": {"k": "nest", "cs": [], "align": None, "inner": inner,
+                    "outer": {"k": "cross", "design": [0], "crossing": [0], "rcc": True, "cs": [{"k": "Sequential", "f": 0}]}}})
+    out.append({"factors": [s3, s2], "block": {"k": "merge", "cs": [{"k": "Sequential", "f": 0}], "mode": "repeat", "align": None,
+                "bs": [{"k": "nest", "cs": [], "align": None,
+                        "inner": {"k": "cross", "design": [1], "crossing": [1], "rcc": True, "cs": []},
+                        "outer": {"k": "cross", "design": [0], "crossing": [0], "rcc": True, "cs": []}}]}})
     out.mark()
     # weighted crossed levels with an incomplete crossing (require_complete_crossing=False): the exclusion removes a
     # combination that contains the weighted level, the weighted level itself, or acts through a derived level
@@ -666,6 +703,13 @@ class Case:
         except Exception as e:     # any exception from a constructor = design not accepted
             self.reject = "%s: %s" % (type(e).__name__, str(e)[:200])
         self.geo = lean_geo(self.ctx, self.desc)
+        b = self.desc["block"]
+        if b.get("align") == "post preamble" and (b["k"] == "multicross" or (
+                b["k"] == "merge" and all(x["k"] == "cross" for x in b.get("bs", [])))):
+            # the geometry the same design has when every crossing is laid out from its own preamble: where it
+            # coincides with the documented POST_PREAMBLE geometry the open finding F22 cannot show (see regions)
+            g2 = lean_geo(self.ctx, dict(self.desc, block=dict(b, align="parallel start")))
+            self.geo["parallel"] = {"n": g2["n"], "weights": g2["weights"]}
         return self.built is not None
 
     def fresh_block(self):
@@ -706,10 +750,12 @@ def multiplicity(desc, seq):
         for x in b.get("bs", []):
             walk(x)
     walk(desc["block"])
+    # a Sequential factor runs through its level copies in a fixed order: one solution per printed sequence
+    sequential = {c["f"] for c in D.all_constraints(desc["block"]) if c["k"] == "Sequential"}
     m = 1
     for fid, col in seq:
         f = fs[fid]
-        if f["window"] is None and fid not in crossed:
+        if f["window"] is None and fid not in crossed and fid not in sequential:
             for v in col:
                 if v is not None:
                     m *= f["levels"][v]["w"]
